@@ -45,7 +45,7 @@ func pureHelper(fn *ssa.Function) bool {
 		case *ssa.BinOp, *ssa.UnOp, *ssa.Convert, *ssa.ChangeType, *ssa.FieldAddr, *ssa.Field, *ssa.Return, *ssa.DebugRef, *ssa.Extract:
 		case *ssa.Call:
 			cal := x.Call.StaticCallee()
-			if cal == nil || cal == fn || !pureHelper(cal) {
+			if cal == nil || cal == fn || !(pureHelper(cal) || extPure(cal)) {
 				return false
 			}
 		default:
@@ -333,4 +333,16 @@ func wholeStore(al *ssa.Alloc) ssa.Value {
 		return val
 	}
 	return nil
+}
+
+// extPure: functions of the journal library that only build a value from
+// their arguments (address constructors); they stay calls in the normal form.
+func extPure(fn *ssa.Function) bool {
+	if fn == nil || fn.Pkg == nil || IsRepoFunc(fn) {
+		return false
+	}
+	if fn.Pkg.Pkg.Path() == jrnlPath+"/addr" {
+		return fn.Name() == "MkAddr" || fn.Name() == "MkBitAddr"
+	}
+	return false
 }
